@@ -471,6 +471,15 @@ UNITS['U21n'] = dict(
     assumptions=['sqlparser and f64 parsing are outside both verifiers; get_raw_val is compiled natively and enumerated over a stated pool (bounded stand-in, reported under coverage.bounded)', 'R10: RawVal and QueryError reduced to same-named stand-ins'],
     not_covered=['literals longer than the bound', 'the rest of convert_to_native_expr'])
 
+UNITS['U38k'] = dict(
+    kind='kani', crate='kani/U38', timeout_s=600, mem_gb=8,
+    title='order of a NULL grouping key: FuseIntNulls (slice; order of groups inside a partition) vs FuseNullsI64 (slice) + Comparator<i64> for CmpLessThan (order the cross-partition merge requires) agree on every pair of keys (complete)',
+    harnesses=[dict(name='proofs::null_key_order_agrees', unwind=3, clause='for all keys a, b (NULL or a value of the column range): fuse_int(a) < fuse_int(b)  <=>  CmpLessThan::cmp(sentinel(a), sentinel(b))', fn='FuseIntNulls::execute[slice] / FuseNullsI64::execute[slice] / Comparator<i64> for CmpLessThan'),
+               dict(name='proofs::vx_canary', expect_fail=True)],
+    assumptions=['A-pipeline (glue, confirmed by the API history of the known finding): per-partition aggregation emits groups in ascending order of the fused key; the grouping column of a partial result carries NULL as I64_NULL and is merged by MergeDeduplicate<i64, CmpLessThan>',
+                 'offset = 1 - min as passed by compile_grouping_key / try_bitpacking'],
+    not_covered=['string and float keys', 'descending merges'])
+
 UNITS['U24k'] = dict(
     kind='kani', crate='kani/U24', timeout_s=600, mem_gb=12, jobs=2,
     title='BOUNDED (names <= 2 ASCII characters): storage.rs sanitize_table_name - cleaning steps after lower-casing (slice) and the verbatim-or-digest decision (expression slice)',
@@ -518,7 +527,7 @@ PROPS = {
                 level_note='A-bitbuffer, A-ind-scheme, A-capnp; bounded parts are reported under coverage.bounded and not counted as discharged obligations',
                 technique='contract-based deductive verification (Kani: complete induction step + bounded harnesses) of extracted slices and of the unmodified sub-crate',
                 assumptions=[], not_covered=['capnp transport', 'bitbuffer internals', 'bincode / HTTP framing']),
-    'C02': dict(level='proof', units=['U10', 'U09k', 'U09m', 'U13k', 'U20k', 'U28k', 'U29'],
+    'C02': dict(level='proof', units=['U10', 'U09k', 'U09m', 'U13k', 'U20k', 'U28k', 'U29', 'U38k'],
                 level_text='Verus proofs of the merge kernels that combine per-partition results (sorted, provenance, left-biased, nothing skipped), complete Kani proofs of cross-partition aggregate combination and limit arithmetic; bounded Kani check (2-4 keys) of the plan that merges the grouping keys of two partial results',
                 level_note='per-partition planning, executor streaming, disk read scheduling and thread count are glue and not covered: the check catches a broken merge/combine primitive or a broken key-merge chain, not a broken executor',
                 technique='contract-based deductive verification (Verus + Kani complete harnesses) of extracted functions',
